@@ -166,11 +166,14 @@ func main() {
 	var l []*explore.Scenario
 	noAtomics := uint32(1<<sched.KLock | 1<<sched.KRLock | 1<<sched.KEtcd | 1<<sched.KUser | 1<<sched.KWait | 1<<sched.KStart)
 	ads := append(tsoh.Admins(), tsoh.Handover(0), tsoh.Handover(-time.Hour), tsoh.Handover(time.Hour))
-	ads = append(ads, tsoh.Handover2(-time.Hour))
+	ads = append(ads, tsoh.Handover2(-time.Hour), tsoh.HandoverBack(0))
+	ads = append(ads, tsoh.Seq("handover-after-lost-retry", tsoh.LostRetry(), tsoh.Handover(0)))
 	ads = append(ads, tsoh.Seq("handover-after-set+10s", tsoh.Admins()[6], tsoh.Handover(0)))
 	for _, ad := range ads {
 		lead := strings.HasPrefix(ad.Name, "reset") || strings.HasPrefix(ad.Name, "handover")
 		switch {
+		case strings.Contains(ad.Name, "after-lost-retry"):
+			l = append(l, scenario(ad.Name+"/clk+50ms", ad, 2, 0, "quick", false, 3, 1, noAtomics, 50*time.Millisecond))
 		case strings.Contains(ad.Name, "after-set"):
 			l = append(l, scenario(ad.Name+"/clk+50ms", ad, 2, 0, "quick", false, 3, 1, noAtomics, 50*time.Millisecond))
 			// the periodic update has to save a new window (clock at the end of the saved one)
